@@ -292,7 +292,7 @@ def handleSchemaCheck (j : Json) : Json :=
   let d := schemaDefs j
   let s := toSchema ((j.getObjVal? "s").toOption.getD .null)
   let v := toJ ((j.getObjVal? "j").toOption.getD .null)
-  Json.mkObj [("r", Json.str "ok"), ("valid", Json.bool (Schema.valid d 60 s v)), ("validSkip", Json.bool (Schema.validSkip d 60 s v)),
+  Json.mkObj [("r", Json.str "ok"), ("valid", Json.bool (Schema.valid d 60 s v)), ("validSkip", Json.bool (Schema.validSkip d 60 s v)), ("validAny", Json.bool (Schema.validAny d 60 s v)), ("validAll", Json.bool (Schema.validAll d 60 s v)),
     ("noZero", Json.bool (Schema.noZeroProps 60 v))]
 
 def handleTolerated (j : Json) : Json :=
